@@ -6,6 +6,9 @@ plain-data operation to ``self.log``, dispatches to ``op_<opname>`` and then run
 history so far, which is the replay payload: ``replay(cls, ctx, history)`` re-executes
 it on a fresh machine without Hypothesis.
 """
+import json
+import os
+
 from hypothesis.stateful import RuleBasedStateMachine
 
 from vlib.core import PropertyViolation, encode_payload, default_render
@@ -37,6 +40,10 @@ class LoggedMachine(RuleBasedStateMachine):
             return
         self.log.append(op)
         ctx = self.ctx
+        journal = os.environ.get("VERIF_JOURNAL")
+        if journal:
+            with open(journal, "w") as jf:
+                json.dump(dict(payload=encode_payload(list(self.log)), render=self.render()[:4000]), jf)
         ctx.event("op:" + str(op[0]))
         try:
             try:
